@@ -140,12 +140,24 @@ func (o *c12obs) Observe(ev *PEvent, ps *PState) (string, string) {
 		o.st.Inc("gsap_blocks_checked_after_rebuild")
 	}
 	pos := ev.PreW
+	// the brute-force search is quadratic: beyond 1500 buffered bytes the
+	// longest previous match is taken from the harness' own suffix array
+	// (prefix doubling) and LCP table of the buffered bytes up to the block end
+	longest := func(q int) (int, int) { return ref.LongestPrev(ps.Fed, lo, q, int(limit)) }
+	if int(limit)-lo > 1500 {
+		pm := ref.NewPrevMatcher(ps.Fed[lo:limit])
+		longest = func(q int) (int, int) {
+			b, src := pm.Longest(q - lo)
+			return b, src + lo
+		}
+		o.st.Inc("gsap_blocks_checked_with_suffix_array_oracle")
+	}
 	checkLit := func(from, to int64) (string, string) {
 		if !literalClause {
 			return "", ""
 		}
 		for q := from; q < to; q++ {
-			best, src := ref.LongestPrev(ps.Fed, lo, int(q), int(limit))
+			best, src := longest(int(q))
 			o.st.Inc("literal_positions_checked")
 			if best >= minM {
 				return "literal-despite-match", fmt.Sprintf("byte at stream position %d emitted as literal although position %d offers a match of %d >= MinMatchLen %d bytes (buffer starts at %d, block [%d,%d)); block=%+v", q, src, best, minM, lo, ev.PreW, limit, *ev.Blk)
@@ -158,7 +170,7 @@ func (o *c12obs) Observe(ev *PEvent, ps *PState) (string, string) {
 			return c, m
 		}
 		pos += int64(s.LitLen)
-		best, src := ref.LongestPrev(ps.Fed, lo, int(pos), int(limit))
+		best, src := longest(int(pos))
 		o.st.Inc("matches_checked")
 		if int(s.MatchLen) != best {
 			return "match-not-longest", fmt.Sprintf("sequence %d %+v at stream position %d: the longest available match has %d bytes (source %d; buffer starts at %d, block [%d,%d))", i, s, pos, best, src, lo, ev.PreW, limit)
@@ -180,8 +192,8 @@ func init() {
 		base: base{id: "C12", level: "exploration",
 			rule:        "GSAP histories without Parse(nil) (both flag values, several blocks per fill, second and later fills, Shrink, Reset incl. data) on alphabets of 2-3 letters, periodic, two-letter-run and LZ-synthetic strings; for every emitted match the brute-force longest previous match over all still buffered earlier positions (clipped at the block end) must have exactly the emitted length; when BufferSize <= WindowSize every literal byte is checked to have no earlier match of >= MinMatchLen; non-trivial iff >= 2 blocks were checked and one has a match; distinct = distinct concrete case",
 			assumptions: []string{"the block end used for clipping is parse position + min(BlockSize, unparsed), also for NoTrailingLiterals blocks"},
-			mandatory:   []string{"gsap_blocks_checked", "gsap_blocks_checked_after_rebuild", "matches_checked", "literal_positions_checked", "blocks_ntl", "resets_ok"}},
-		types: []string{"GSAP"}, quickN: 16000, thorMul: 40, corpusN: 2000, large: false,
+			mandatory:   []string{"gsap_blocks_checked", "gsap_blocks_checked_after_rebuild", "matches_checked", "literal_positions_checked", "blocks_ntl", "resets_ok", "gsap_blocks_checked_with_suffix_array_oracle"}},
+		types: []string{"GSAP"}, quickN: 16000, thorMul: 40, corpusN: 2000, large: false, midtext: true,
 		weights: HWeights{Write: 18, ReadFrom: 6, Parse: 34, ParseNTL: 16, ParseNil: 0, Shrink: 12, Reset: 2, ResetData: 3, WParse: 6},
 		opts:    func(typ string) gen.Opts { return gen.Opts{} },
 		tweak: func(r *rand.Rand, pc *PCase, kind string) {
